@@ -11,7 +11,7 @@
 // regenerate the same text; a changed shift, word index, bound, argument order, register rotation or helper
 // body regenerates a different one (or is refused).
 //
-//	const name = <int literal>                                  (chunkSize, init0..init3)
+//	const name [T] = <int literal | expression over literals and earlier constants>   (chunkSize, init0..init3, …)
 //	func New: md4.state[k] = <const name>   for k = 0..3        (nothing else may touch the state)
 //	func f(p1, …, pn uint32) uint32 { return <expr> }           expr over + - ^ & | << >>, ( ), params,
 //	                                                            int literals, calls of such helpers
@@ -57,6 +57,78 @@ func intLit(e ast.Expr) (uint64, bool) {
 	}
 	v, err := strconv.ParseUint(strings.ReplaceAll(bl.Value, "_", ""), 0, 64)
 	return v, err == nil
+}
+
+// constExpr evaluates the value of a package-level constant: an integer literal, an earlier constant of the file,
+// or + - * / % << >> & | over such, with every intermediate result in [0, 2^32) (no negative numbers, no wrap-
+// around: inside that range untyped and typed Go constant arithmetic agree).  `const chunkSize = 64` and
+// `const chunkSize = 16 * 4` therefore give the same model; iota and anything else are refused.
+func (m *md4x) constExpr(e ast.Expr) (uint64, error) {
+	switch v := e.(type) {
+	case *ast.ParenExpr:
+		return m.constExpr(v.X)
+	case *ast.BasicLit:
+		n, ok := intLit(v)
+		if !ok || n > 0xFFFFFFFF {
+			return 0, m.errf(e, "not an integer literal below 2^32")
+		}
+		return n, nil
+	case *ast.Ident:
+		if n, ok := m.consts[v.Name]; ok {
+			return n, nil
+		}
+		return 0, m.errf(e, "%s is not an earlier constant of the file", v.Name)
+	case *ast.BinaryExpr:
+		a, err := m.constExpr(v.X)
+		if err != nil {
+			return 0, err
+		}
+		b, err := m.constExpr(v.Y)
+		if err != nil {
+			return 0, err
+		}
+		var r uint64
+		switch v.Op {
+		case token.ADD:
+			r = a + b
+		case token.SUB:
+			if b > a {
+				return 0, m.errf(e, "negative constant")
+			}
+			r = a - b
+		case token.MUL:
+			r = a * b
+		case token.QUO, token.REM:
+			if b == 0 {
+				return 0, m.errf(e, "division by zero")
+			}
+			if v.Op == token.QUO {
+				r = a / b
+			} else {
+				r = a % b
+			}
+		case token.SHL, token.SHR:
+			if b > 31 {
+				return 0, m.errf(e, "shift amount above 31")
+			}
+			if v.Op == token.SHL {
+				r = a << b
+			} else {
+				r = a >> b
+			}
+		case token.AND:
+			r = a & b
+		case token.OR:
+			r = a | b
+		default:
+			return 0, m.errf(e, "operator %s in a constant not understood", v.Op)
+		}
+		if r > 0xFFFFFFFF {
+			return 0, m.errf(e, "constant result does not fit 32 bits")
+		}
+		return r, nil
+	}
+	return 0, m.errf(e, "constant expression shape %T not understood", e)
 }
 
 // expr translates a pure uint32 expression; `params` are the identifiers in scope.
@@ -235,13 +307,18 @@ func md4Kernel(repo string) (string, any, error) {
 			}
 			for _, sp := range v.Specs {
 				vs := sp.(*ast.ValueSpec)
-				if vs.Type != nil || len(vs.Names) != len(vs.Values) {
-					return "", nil, m.errf(vs, "const shape not understood (typed or iota constants)")
+				if len(vs.Names) != len(vs.Values) {
+					return "", nil, m.errf(vs, "const shape not understood (iota / implicit repetition)")
+				}
+				if vs.Type != nil {
+					if id, ok := vs.Type.(*ast.Ident); !ok || !(id.Name == "int" || id.Name == "uint32" || id.Name == "uint64" || id.Name == "uint" || id.Name == "int64") {
+						return "", nil, m.errf(vs, "const shape not understood (type is not a 32/64-bit integer type)")
+					}
 				}
 				for i, n := range vs.Names {
-					val, ok := intLit(vs.Values[i])
-					if !ok {
-						return "", nil, m.errf(vs.Values[i], "const %s is not an integer literal", n.Name)
+					val, err := m.constExpr(vs.Values[i])
+					if err != nil {
+						return "", nil, fmt.Errorf("const %s: %w", n.Name, err)
 					}
 					m.consts[n.Name] = val
 				}
@@ -252,8 +329,17 @@ func md4Kernel(repo string) (string, any, error) {
 				newFn = v
 			case v.Name.Name == "processChunk" && v.Recv != nil:
 				pcFn = v
-			case v.Recv == nil && v.Type.Results != nil && len(v.Type.Results.List) == 1:
-				if id, ok := v.Type.Results.List[0].Type.(*ast.Ident); ok && id.Name == "uint32" {
+			case v.Recv == nil && v.Type.Results != nil && len(v.Type.Results.List) == 1 && v.Body != nil:
+				// a uint32 HELPER: all parameters uint32, one unnamed uint32 result, the body one return statement.
+				// Any other function is not translated; processChunk may still call it — the evaluator then runs
+				// its body (md4_peval.go, N8).
+				if id, ok := v.Type.Results.List[0].Type.(*ast.Ident); ok && id.Name == "uint32" && len(v.Type.Results.List[0].Names) == 0 {
+					if _, err := m.helperParams(v); err != nil || len(v.Body.List) != 1 {
+						continue
+					}
+					if _, ok := v.Body.List[0].(*ast.ReturnStmt); !ok {
+						continue
+					}
 					m.helpers[v.Name.Name] = v
 					m.order = append(m.order, v.Name.Name)
 				}
